@@ -1603,6 +1603,159 @@ def sub_2qutrit(ctx):
     ctx.note("2-qutrit gates wall (s): tables %.1f, worker pool %.1f, model-tied sample %.1f" % (t1 - t0, t2 - t1, time.time() - t2))
 
 
+# ================================================================== 10. history: the caller writes into what it was given, then asks again
+def _arrays(obj, out=None):
+    """every numpy array reachable from a returned object (arrays, nested lists / tuples, quara objects' vec / vecs / hs / hss)"""
+    out = [] if out is None else out
+    if isinstance(obj, np.ndarray):
+        out.append(obj)
+    elif isinstance(obj, (list, tuple)):
+        for x in obj:
+            _arrays(x, out)
+    else:
+        for attr in ("vec", "vecs", "hs", "hss"):
+            try:
+                val = getattr(obj, attr)
+            except Exception:
+                continue
+            if isinstance(val, (np.ndarray, list, tuple)):
+                _arrays(val, out)
+    return out
+
+
+def _snapshot(obj):
+    return [np.array(a, copy=True) for a in _arrays(obj)]
+
+
+def _same(a, b):
+    return len(a) == len(b) and all(x.shape == y.shape and np.array_equal(x, y) for x, y in zip(a, b))
+
+
+def _scribble(obj):
+    """in-place arithmetic of an ordinary caller (v *= c; v += w) on every writeable array it was given; returns the number of arrays written"""
+    n = 0
+    for a in _arrays(obj):
+        if a.flags.writeable and a.size:
+            try:
+                a *= 0
+                a += (7.5 + 2j) if np.iscomplexobj(a) else 7.5
+                n += 1
+            except Exception:
+                pass
+    return n
+
+
+def alias_calls(ctx):
+    """(site, label, callable) for every raw-array object form of every family on the small systems (+ the 3-qubit / 2-qutrit special names):
+    the reference set that is generated, snapshotted, handed to a writing caller and generated again"""
+    q = Q(); cat = CAT(); calls = []
+    c = {k: csys(k) for k in SYSN}
+    st_names = [(sysname, n) for sysname in ("1qubit", "2qubit", "1qutrit") for n in cat.state_names[sysname]] + \
+        [("3qubit", n) for n in ("ghz", "werner", "z0_z1_x0", "z1_y0_z0")] + [("2qutrit", n) for n in ("00_11_22_superposition", "01z0_12x1")]
+    for sysname, n in st_names:
+        calls.append(("state_typical.generate_state_pure_state_vector_from_name", ("state", n, "pure_state_vector"), lambda n=n: q.qt.generate_state_object(n, "pure_state_vector")))
+        calls.append(("state_typical.generate_state_density_mat_from_name", ("state", n, "density_mat"), lambda n=n: q.qt.generate_state_object(n, "density_mat")))
+        calls.append(("state_typical.generate_state_density_matrix_vector_from_name", ("state", n, "density_matrix_vector"),
+                      lambda n=n, cs=c[sysname]: q.qt.generate_state_object(n, "density_matrix_vector", cs)))
+        if SYSDIM[sysname] <= 4:
+            calls.append(("state_typical.generate_state_from_name", ("state", n, "state"), lambda n=n, cs=c[sysname]: q.qt.generate_state_object(n, "state", cs)))
+    for sysname in ("1qubit", "2qubit", "1qutrit"):
+        for n in cat.povm_names[sysname]:
+            if all(p in q.pt.get_povm_names_rank1() for p in n.split("_")):
+                calls.append(("povm_typical.generate_povm_pure_state_vectors_from_name", ("povm", n, "pure_state_vectors"), lambda n=n: q.qt.generate_povm_object(n, "pure_state_vectors")))
+            calls.append(("povm_typical.generate_povm_matrices_from_name", ("povm", n, "matrices"), lambda n=n: q.qt.generate_povm_object(n, "matrices")))
+            calls.append(("povm_typical.generate_povm_vectors_from_name", ("povm", n, "vectors"),
+                          lambda n=n, cs=c[sysname]: q.pt.generate_povm_object_from_povm_name_object_name(n, "vectors", basis=cs.basis())))
+            calls.append(("povm_typical.generate_povm_from_name", ("povm", n, "povm"), lambda n=n, cs=c[sysname]: q.qt.generate_povm_object(n, "povm", cs)))
+    gsel = [("1qubit", n, [2], [0]) for n in cat.gate_names["1qubit"]] + [("2qubit", n, [2, 2], ids) for n in cat.gate_names["2qubit"] for ids in ([0, 1], [1, 0])] + \
+        [("3qubit", n, [2, 2, 2], [1, 2, 0]) for n in cat.gate_names["3qubit"]] + [("1qutrit", n, [3], [0]) for n in cat.gate_names["1qutrit"][::3]] + \
+        [("2qutrit", n, [3, 3], [0, 1]) for n in ("i01x90", "01z12y180", "01xi90_i12y180")]
+    for sysname, n, dims, ids in gsel:
+        calls.append(("gate_typical.generate_unitary_mat_from_gate_name", ("gate", n, tuple(ids), "unitary_mat"), lambda n=n, dims=dims, ids=ids: q.gt.generate_unitary_mat_from_gate_name(n, dims, ids)))
+        calls.append(("effective_lindbladian_typical.generate_hamiltonian_mat_from_gate_name", ("gate", n, tuple(ids), "hamiltonian_mat"),
+                      lambda n=n, dims=dims, ids=ids: q.lt.generate_hamiltonian_mat_from_gate_name(n, dims, ids)))
+        if SYSDIM[sysname] <= 4:
+            calls.append(("gate_typical.generate_gate_mat_from_gate_name", ("gate", n, tuple(ids), "gate_mat"), lambda n=n, dims=dims, ids=ids: q.gt.generate_gate_mat_from_gate_name(n, dims, ids)))
+            calls.append(("effective_lindbladian_typical.generate_hamiltonian_vec_from_gate_name", ("gate", n, tuple(ids), "hamiltonian_vec"),
+                          lambda n=n, dims=dims, ids=ids: q.lt.generate_hamiltonian_vec_from_gate_name(n, dims, ids)))
+            calls.append(("gate_typical.generate_gate_from_gate_name", ("gate", n, tuple(ids), "gate"), lambda n=n, cs=c[sysname], ids=ids: q.gt.generate_gate_from_gate_name(n, cs, ids)))
+    for n in cat.mproc_names:
+        sysname = cat.mproc[n][1]
+        if n in q.mt.get_mprocess_names_type1_set_pure_state_vectors():
+            calls.append(("mprocess_typical.generate_mprocess_set_pure_state_vectors_from_name", ("mprocess", n, "set_pure_state_vectors"), lambda n=n: q.qt.generate_mprocess_object(n, "set_pure_state_vectors")))
+        calls.append(("mprocess_typical.generate_mprocess_set_kraus_matrices_from_name", ("mprocess", n, "set_kraus_matrices"), lambda n=n: q.qt.generate_mprocess_object(n, "set_kraus_matrices")))
+        calls.append(("mprocess_typical.generate_mprocess_hss_from_name", ("mprocess", n, "hss"), lambda n=n, cs=c[sysname]: q.qt.generate_mprocess_object(n, "hss", cs)))
+    for n in q.et.get_state_ensemble_names():
+        calls.append(("state_ensemble_typical.generate_state_ensemble_elements_from_name", ("state_ensemble", n, "elements"),
+                      lambda n=n: [s_.vec for s_ in q.et.generate_state_ensemble_elements_from_name(n, c["1qubit"])[0]]))
+    # named bases and legacy constructors hand out arrays too
+    mb = q.mb
+    for label, f in (("get_pauli_basis(1)", lambda: [dense(b) for b in mb.get_pauli_basis(1)]), ("get_normalized_pauli_basis(2)", lambda: [dense(b) for b in mb.get_normalized_pauli_basis(2)]),
+                     ("get_normalized_gell_mann_basis", lambda: [dense(b) for b in mb.get_normalized_gell_mann_basis()]), ("get_comp_basis(2)", lambda: [dense(b) for b in mb.get_comp_basis(2)])):
+        calls.append(("matrix_basis.named_basis", ("basis", label), f))
+    return calls
+
+
+def chk_aliasing(ctx, case):
+    """HISTORY on returned arrays: every catalogue entry of the reference set is generated and snapshotted; then, entry by entry, a caller receives
+    the object, does in-place arithmetic on every writeable array in it, and asks for the same entry again (must be unchanged: the catalogue never hands
+    out its own storage); finally the whole reference set is generated once more and compared with the snapshots (a write into one entry must not change
+    another).  Arrays that are read-only are left alone.  This sub-check runs LAST: a catalogue that fails it is corrupted for the rest of the process."""
+    calls = alias_calls(ctx)
+    only = case.get("only")
+    if only is not None:
+        calls = [cl for cl in calls if [list(x) if isinstance(x, tuple) else x for x in cl[1]] == [list(x) if isinstance(x, (list, tuple)) else x for x in only]]
+    ref = []
+    for site, label, f in calls:
+        try:
+            ref.append(_snapshot(f()))
+        except Exception as e:
+            ref.append(None)
+    written = 0; direct = set()
+    for k, (site, label, f) in enumerate(calls):
+        if ref[k] is None:
+            continue
+        ctx.count("aliasing", key=label, nontrivial=True, label=label[0])
+        try:
+            obj = f()
+        except Exception:
+            continue
+        nw = _scribble(obj); written += nw
+        if nw == 0:
+            continue
+        try:
+            again = _snapshot(f())
+        except Exception as e:
+            again = None
+        if again is None or not _same(again, ref[k]):
+            direct.add(k)
+            V(ctx, "aliasing", site, "returned-array-aliases-catalogue-state",
+              "%s %r form %r: after the caller wrote in place into the returned array(s), generating the same entry again %s - the catalogue handed out its own storage" % (
+                  label[0], label[1], label[-1], "raises" if again is None else "yields different values"), {"only": list(label)})
+            break                  # the catalogue is corrupted from here on: stop writing, list what is affected
+    bad = []
+    for k, (site, label, f) in enumerate(calls):
+        if ref[k] is None or k in direct:
+            continue
+        try:
+            again = _snapshot(f())
+        except Exception:
+            again = None
+        if again is None or not _same(again, ref[k]):
+            bad.append((site, label))
+    if bad:
+        site, label = bad[0]
+        V(ctx, "aliasing", site, "catalogue-entry-changed-by-caller-writes",
+          "%d (entry, form) pairs differ from their first generation after a caller wrote into arrays returned for OTHER entries, e.g. %s" % (
+              len(bad), ", ".join("%s %r %r" % (l[0], l[1], l[-1]) for _, l in bad[:8])),
+          {"only": None, "affected": [list(l) for _, l in bad[:40]]})
+    ctx.note("aliasing: %d (entry, form) pairs generated, %d returned arrays written in place by the simulated caller, every entry generated again afterwards" % (len(calls), written))
+
+
+def sub_aliasing(ctx):
+    ctx.sample("aliasing", {"only": None}); ctx.run_cases("aliasing", FNS["aliasing"], [{"only": None}])
+
+
 def _guard(sub, fn):
     """quara signals several errors with `assert`; the runner re-raises AssertionError (it is reserved for harness self-checks), so an
     assertion failing inside the implementation is turned into a violation here instead of aborting the run"""
@@ -1617,9 +1770,10 @@ def _guard(sub, fn):
     return wrapped
 
 
+SUBS_LAST = [("aliasing", sub_aliasing)]          # corrupts the process when it finds a defect: after everything else
 SUBS = [("catalogue", sub_catalogue), ("bases", sub_bases), ("states", sub_states), ("povms", sub_povms), ("gates", sub_gates), ("permute", sub_permute), ("triples", sub_triples),
         ("mprocess", sub_mprocess), ("ensembles", sub_ensembles), ("unknown_names", sub_unknown), ("gates_2qutrit", sub_2qutrit)]
-FNS = {"catalogue": chk_catalogue, "bases": chk_basis, "states": chk_states_any, "povms": chk_povm_any, "gates": chk_gate_any, "permute": chk_permute, "triples": chk_triple, "mprocess": chk_mprocess,
+FNS = {"aliasing": chk_aliasing, "catalogue": chk_catalogue, "bases": chk_basis, "states": chk_states_any, "povms": chk_povm_any, "gates": chk_gate_any, "permute": chk_permute, "triples": chk_triple, "mprocess": chk_mprocess,
        "ensembles": chk_ensemble, "unknown_names": chk_unknown_any, "gates_2qutrit": chk_2qutrit}
 FNS = {k: _guard(k, f) for k, f in FNS.items()}
 
@@ -1712,7 +1866,7 @@ def run(ctx):
         ctx.note("regenerated-parser obligations (coq/gen/C17_Equiv*.v) not discharged: %s" % str(info2)[:500])
     if not ok:
         ctx.discharged = min(ctx.discharged, ctx.obligations - 1)
-    for name, fn in SUBS:
+    for name, fn in SUBS + SUBS_LAST:
         if ctx.only is None or name in ctx.only:
             _timed(name, fn)(ctx)
     if not ok and not ctx.violations:
